@@ -18,9 +18,9 @@ PROPS = {
             'nesting native'),
     'C12': ('contracts.c12', 'exploration',
             'unbounded: Node.__eq__ on two trees, __deepcopy__, dfs / bfs (incl. '
-            'max_depth), count_nodes, count_exprs, binary_search; '
+            'max_depth), count_nodes, count_exprs, filter_nodes, binary_search; '
             'shape-bounded: __eq__/__hash__ on all shape pairs incl. '
-            'coercions; native: pickle, filter_nodes'),
+            'coercions; native: pickle'),
     'C11': ('contracts.c11', 'proof',
             'unbounded: substitute (structural keys against the reference '
             'substitution; identity keys by per-node contributions and '
